@@ -237,13 +237,13 @@ PROPS = {
     ),
     'C02': dict(
         tv=dict(module='ExprParseTrace', cfg='ExprParseTrace.cfg'),
-        mc=[dict(module='ExprGrammarMC', cfg={'quick': 'ExprGrammarMC.quick.cfg', 'thorough': 'ExprGrammarMC.thorough.cfg'})],
+        mc=[dict(module='ExprGrammarMC', cfg={'quick': 'ExprGrammarMC.quick.cfg', 'thorough': 'ExprGrammarMC.thorough.cfg'}, extra=['-maxSetSize', '6000000'], heap='12g')],
         corrupt=[('flip accepted/rejected', _flipoutcome)],
         exhaustive_part=True,
     ),
     'C01': dict(
         tv=dict(module='ExprEvalTrace', cfg='ExprEvalTrace.cfg'),
-        mc=[dict(module='ExprGrammarMC', cfg={'quick': 'ExprGrammarMC.quick.cfg', 'thorough': 'ExprGrammarMC.thorough.cfg'})],
+        mc=[dict(module='ExprGrammarMC', cfg={'quick': 'ExprGrammarMC.quick.cfg', 'thorough': 'ExprGrammarMC.thorough.cfg'}, extra=['-maxSetSize', '6000000'], heap='12g')],
         corrupt=[('swap operands of a recorded application', _swapargs)],
         exhaustive_part=True,
         harness_prefix='HARNESS:',
